@@ -500,6 +500,7 @@ func (s *persistentHybridSearch) Execute() ([]HybridSearchResult, error) {
 
 	// Search memtables (newest first)
 	memtables := s.storage.memtableQueue.list()
+	verifPoint("search.listed-memtables", len(memtables))
 	for i := len(memtables) - 1; i >= 0; i-- {
 		mt := memtables[i]
 
@@ -544,6 +545,7 @@ func (s *persistentHybridSearch) Execute() ([]HybridSearchResult, error) {
 
 	// Search segments concurrently
 	segments := s.storage.segmentManager.list()
+	verifPoint("search.listed-segments", len(segments))
 	if len(segments) > 0 {
 		var wg sync.WaitGroup
 		resultsChan := make(chan []HybridSearchResult, len(segments))
@@ -662,6 +664,7 @@ func (s *PersistentHybridIndex) Flush() error {
 func (s *PersistentHybridIndex) flushMemtables() error {
 	// Get frozen memtables
 	frozen := s.memtableQueue.listFrozen()
+	verifPoint("flush.begin", len(frozen))
 	if len(frozen) == 0 {
 		return nil
 	}
@@ -672,7 +675,9 @@ func (s *PersistentHybridIndex) flushMemtables() error {
 		}
 
 		// Remove from queue
+		verifPoint("flush.registered", mt)
 		s.memtableQueue.remove(mt)
+		verifPoint("flush.dropped", mt)
 	}
 
 	return nil
@@ -695,6 +700,7 @@ func (s *PersistentHybridIndex) flushMemtable(mt *memtable) error {
 	if err != nil {
 		return fmt.Errorf("failed to create hybrid file: %w", err)
 	}
+	verifPoint("crash:flush.create.hybrid", hybridPath)
 	defer hybridFile.Close()
 
 	hybridGz := gzip.NewWriter(hybridFile)
@@ -709,6 +715,7 @@ func (s *PersistentHybridIndex) flushMemtable(mt *memtable) error {
 		if err != nil {
 			return fmt.Errorf("failed to create vector file: %w", err)
 		}
+		verifPoint("crash:flush.create.vector", vectorPath)
 		defer vectorFile.Close()
 
 		vectorGz = gzip.NewWriter(vectorFile)
@@ -721,6 +728,7 @@ func (s *PersistentHybridIndex) flushMemtable(mt *memtable) error {
 		if err != nil {
 			return fmt.Errorf("failed to create text file: %w", err)
 		}
+		verifPoint("crash:flush.create.text", textPath)
 		defer textFile.Close()
 
 		textGz = gzip.NewWriter(textFile)
@@ -733,6 +741,7 @@ func (s *PersistentHybridIndex) flushMemtable(mt *memtable) error {
 		if err != nil {
 			return fmt.Errorf("failed to create metadata file: %w", err)
 		}
+		verifPoint("crash:flush.create.metadata", metadataPath)
 		defer metadataFile.Close()
 
 		metadataGz = gzip.NewWriter(metadataFile)
@@ -758,14 +767,19 @@ func (s *PersistentHybridIndex) flushMemtable(mt *memtable) error {
 	// Close gzip writers to ensure all data is flushed
 	if vectorGz != nil {
 		vectorGz.Close()
+		verifPoint("crash:flush.close.vector", vectorPath)
 	}
 	if textGz != nil {
 		textGz.Close()
+		verifPoint("crash:flush.close.text", textPath)
 	}
 	if metadataGz != nil {
 		metadataGz.Close()
+		verifPoint("crash:flush.close.metadata", metadataPath)
 	}
+	verifPoint("crash:flush.written", hybridPath, vectorPath, textPath, metadataPath)
 	hybridGz.Close()
+	verifPoint("crash:flush.close.hybrid", hybridPath)
 
 	// Get file sizes
 	var totalSize int64
@@ -794,6 +808,7 @@ func (s *PersistentHybridIndex) flushMemtable(mt *memtable) error {
 
 	// Add to segment manager
 	s.segmentManager.add(segment)
+	verifPoint("crash:flush.added", segmentID)
 
 	return nil
 }
@@ -853,6 +868,7 @@ func (s *PersistentHybridIndex) Close() error {
 		return fmt.Errorf("storage already closed")
 	}
 	s.closed = true
+	verifPoint("close.marked")
 	s.mu.Unlock()
 
 	// Signal background workers to stop
@@ -860,6 +876,7 @@ func (s *PersistentHybridIndex) Close() error {
 
 	// Wait for workers to finish
 	s.wg.Wait()
+	verifPoint("close.workers-stopped")
 
 	// Close provider (releases lock)
 	if err := s.provider.close(); err != nil {
